@@ -324,7 +324,13 @@ func runEmit(_ *testing.T, e Emit) engine.Verdict {
 		tp := newTap()
 		cli := jrpc2.NewClient(tp, &jrpc2.ClientOptions{OnCallback: func(ctx context.Context, req *jrpc2.Request) (any, error) {
 			if e.Code != 0 {
-				return nil, &jrpc2.Error{Code: jrpc2.Code(e.Code), Message: e.Message}
+				er := &jrpc2.Error{Code: jrpc2.Code(e.Code), Message: e.Message}
+				if e.Logger {
+					// (for this route the flag means: error data that are no JSON at all;
+					// the reply is still a well-formed error with that code and message)
+					er.Data = json.RawMessage(`{not json`)
+				}
+				return nil, er
 			}
 			return toValue(e), nil
 		}})
@@ -548,7 +554,7 @@ func genEmit(t *rapid.T) Emit {
 		}
 		e.Message = genText(t, "msg", 1)
 	}
-	e.Logger = (e.Via == "response" || e.Via == "errresponse") && rapid.IntRange(0, 2).Draw(t, "logger") == 0
+	e.Logger = (e.Via == "response" || e.Via == "errresponse" || (e.Via == "cbreply" && e.Code != 0)) && rapid.IntRange(0, 2).Draw(t, "logger") == 0
 	return e
 }
 
